@@ -143,7 +143,7 @@ OPTION_SPACE = {
     'roll_mps_unit_cell': {'shift': ['default', '0', '1', '-1', 'L', 'other'], '<bc>': [BCI]},
     'extract_segment': {'first': ['0', 'inner', 'negative'], 'last': ['L-1', 'inner', 'beyond-cell'], '<bc>': [BCF, BCI, BCS]},
     'extract_enlarged_segment': {'psi_left': ['MPS'], 'psi_right': ['MPS'], 'first': ['<int>'], 'last': ['<int>'], 'add_unitcells': ['default', 'int', 'pair'],
-                                 'new_first_last': ['default', 'pair', 'unchanged'], 'cutoff': ['default', '1e-12'], '<bc>': [BCS]},
+                                 'new_first_last': ['default', 'pair', 'unchanged', 'one-side', 'both-sides', 'whole-finite-chain'], 'cutoff': ['default', '1e-12'], '<bc>': [BCS]},
     'gauge_total_charge': {'qtotal': ['default', 'None', 'charge', 'list'], 'vL_leg': ['default', 'None', 'LegCharge'], 'vR_leg': ['default', 'None', 'LegCharge'],
                            '<bc>': [BCF, BCI, BCS]},
     'copy': {'<bc>': [BCF, BCI, BCS]},
